@@ -27,6 +27,7 @@ struct Arith {
     template<int Op>
     static void check_op(mpz_class const& za, mpz_class const& zb, Outcome& o)
     {
+        if constexpr (Op == 3 && !LI::is_scaled) return o.discard("unary-minus-of-a-built-in");
         L a = make_rep<L>(za);
         R b = make_rep<R>(zb);
         mpq_class va = mkq(za) * qpow(radix, EL), vb = mkq(zb) * qpow(radix, ER), exact;
